@@ -284,6 +284,22 @@ func panJudgeConverge(c *Ctx, cs *PanCase, node *panosdev.Node, o PanOpts, prop,
 			return nil
 		}
 		// C03
+		if firstReject != nil && pre != "" {
+			// C10: the resumed approve must get through.
+			kind := panRejectKind(firstReject.Reject)
+			if strings.HasPrefix(kind, "dangling") {
+				name := between2(firstReject.Reject, "'", "'")
+				kind += "|never-created"
+				for _, rec := range r.Node.Transcr {
+					if rec.K > firstReject.K && rec.Class == "script" && strings.Contains(unescape(rec.Req), "entry[@name='"+name+"']") &&
+						strings.Contains(unescape(rec.Req), "action=set") {
+						kind = strings.Replace(kind, "never-created", "created-later", 1)
+					}
+				}
+			}
+			return fail("command-rejected|"+kind+"|"+panAction(firstReject.Req),
+				fmt.Sprintf("request %d %s: %s", firstReject.K, unescape(firstReject.Req), firstReject.Reject))
+		}
 		if firstReject != nil {
 			c.Count("skipped_rejected_script", 1)
 			if os.Getenv("VERIF_DEBUG") != "" {
